@@ -739,7 +739,7 @@ Proof.
 Qed.
 
 Definition step_st (c : cfg) (s : st) (o : op) : st :=
-  match o with OFrame f => write_frame c f s | OClose => close_all s | _ => s end.
+  match o with OFrame f => write_frame c f s | OClose => close_all s | ONewGen _ => init c | _ => s end.
 
 Lemma Inv_cfg c c' s : Inv c s -> Inv c' s.
 Proof. intros [A B C D]. constructor; assumption. Qed.
@@ -756,6 +756,7 @@ Proof.
   intros Hw H. destruct o; cbn [step_st]; try exact H.
   - apply Inv_write_frame; assumption.
   - apply Inv_close_all; assumption.
+  - apply Inv_init.
 Qed.
 
 (* ================================================================== the oracle accepts the model *)
@@ -810,13 +811,24 @@ Lemma o_fields_step c dtok r o :
   let s' := step_st c (r_st r) o in
   let ob := snd (step c dtok r o) in
   o_pl ob = match m3u8 c dtok s' with Some v => Some (v, render v) | None => None end /\
-  o_live ob = live_seqs s' /\ o_files ob = file_seqs c s' /\
+  o_live ob = live_seqs s' /\ o_files ob = dir_seqs c (r_left (fst (step c dtok r o))) s' /\
   o_new ob = map (fun g => (s_seq g, obs_of_frames (s_frames g)))
                  (filter (fun g => negb (mem_z (s_seq g) (r_prev r))) (pl s')).
 Proof.
   unfold step. destruct o; cbn [step_st]; try (cbn; repeat split; reflexivity).
   - destruct (fetch c seq (r_st r)); cbn; repeat split; reflexivity.
   - destruct (m3u8 c tok (r_st r)); cbn; repeat split; reflexivity.
+Qed.
+
+Lemma filter_len_le {A} (f : A -> bool) l : (length (filter f l) <= length l)%nat.
+Proof. induction l as [|x l IH]; cbn; [lia|]. destruct (f x); cbn; lia. Qed.
+
+Lemma dir_seqs_length c lf s : Inv1 s -> (length (dir_seqs c lf s) <= 4 + length lf)%nat.
+Proof.
+  intros I1. unfold dir_seqs. destruct (c_mem c); [cbn; lia|].
+  rewrite app_length, sort_z_length, app_length. unfold live_seqs. rewrite map_length.
+  pose proof (i_len _ I1). pose proof (filter_len_le (fun n => seqno s <? n) lf).
+  destruct (cur s); cbn [length]; lia.
 Qed.
 
 Lemma ok_step_model c dtok r o : Inv c (step_st c (r_st r) o) ->
@@ -835,9 +847,7 @@ Proof.
     rewrite bytes_eqb_refl, view_eqb_refl, F2.
     destruct (view_ok_model c dtok s' v I1 (Inv2_durs_ok _ I2) Hm) as [V _]. rewrite V. reflexivity.
   - rewrite F2. unfold live_seqs. rewrite map_length. apply Nat.leb_le. unfold WINDOW. apply (i_len _ I1).
-  - rewrite F3. unfold file_seqs. destruct (c_mem c); [reflexivity|].
-    rewrite sort_z_length, app_length. unfold live_seqs. rewrite map_length.
-    pose proof (i_len _ I1). apply Nat.leb_le. unfold WINDOW. destruct (cur s'); cbn [length]; lia.
+  - rewrite F3. apply Nat.leb_le. unfold WINDOW. pose proof (dir_seqs_length c (r_left (fst (step c dtok r o))) s' I1). lia.
   - rewrite F4. apply forallb_forall. intros x Hx. apply in_map_iff in Hx as (g & <- & _). reflexivity.
   - rewrite F4. apply forallb_forall. intros x Hx. apply in_map_iff in Hx as (g & <- & Hg).
     apply filter_In in Hg as [Hg _]. cbn [fst snd obs_of_frames g_frames negb andb].
@@ -899,7 +909,7 @@ Lemma flush_frame_acct w s g : cur s = Some g ->
   all_frames (flush_frame w s) = all_frames s ++ [w] /\ cache (flush_frame w s) = cache s /\
   dropped (flush_frame w s) = dropped s.
 Proof.
-  intros Hc. unfold flush_frame, all_frames, curl. rewrite Hc. cbn [set_cur closed cur cache dropped flat_map seg_write s_frames].
+  intros Hc. unfold flush_frame, all_frames, curl. rewrite Hc. cbn [add_fev set_cur closed cur cache dropped flat_map seg_write s_frames].
   rewrite !app_nil_r, app_assoc. repeat split; reflexivity.
 Qed.
 
